@@ -5,6 +5,8 @@ import (
 	"fmt"
 	"strings"
 
+	"k8s.io/apimachinery/pkg/api/errors"
+	"k8s.io/apimachinery/pkg/api/meta"
 	"k8s.io/apimachinery/pkg/apis/meta/v1/unstructured"
 	"k8s.io/apimachinery/pkg/runtime/schema"
 	"k8s.io/apimachinery/pkg/types"
@@ -17,7 +19,10 @@ const (
 )
 
 func DisableHPA(cli client.Client, object client.Object) error {
-	hpa := findHPAForWorkload(cli, object)
+	hpa, err := lookupHPAForWorkload(cli, object)
+	if err != nil {
+		return fmt.Errorf("find HPA for workload %v failed, because %s", klog.KObj(object), err.Error())
+	}
 	if hpa == nil {
 		return nil
 	}
@@ -36,7 +41,10 @@ func DisableHPA(cli client.Client, object client.Object) error {
 }
 
 func RestoreHPA(cli client.Client, object client.Object) error {
-	hpa := findHPAForWorkload(cli, object)
+	hpa, err := lookupHPAForWorkload(cli, object)
+	if err != nil {
+		return fmt.Errorf("find HPA for workload %v failed, because %s", klog.KObj(object), err.Error())
+	}
 	if hpa == nil {
 		return nil
 	}
@@ -55,20 +63,30 @@ func RestoreHPA(cli client.Client, object client.Object) error {
 }
 
 func findHPAForWorkload(cli client.Client, object client.Object) *unstructured.Unstructured {
-	hpa := findHPA(cli, object, "v2")
-	if hpa != nil {
-		return hpa
+	hpa, _ := lookupHPAForWorkload(cli, object)
+	return hpa
+}
+
+// lookupHPAForWorkload is findHPAForWorkload that reports a failed lookup instead of "no HPA"
+func lookupHPAForWorkload(cli client.Client, object client.Object) (*unstructured.Unstructured, error) {
+	hpa, err := findHPA(cli, object, "v2")
+	if err != nil || hpa != nil {
+		return hpa, err
 	}
 	return findHPA(cli, object, "v1")
 }
 
-func findHPA(cli client.Client, object client.Object, version string) *unstructured.Unstructured {
+func findHPA(cli client.Client, object client.Object, version string) (*unstructured.Unstructured, error) {
 	unstructuredList := &unstructured.UnstructuredList{}
 	hpaGvk := schema.GroupVersionKind{Group: "autoscaling", Kind: "HorizontalPodAutoscaler", Version: version}
 	unstructuredList.SetGroupVersionKind(hpaGvk)
 	if err := cli.List(context.TODO(), unstructuredList, &client.ListOptions{Namespace: object.GetNamespace()}); err != nil {
 		klog.Warningf("Get HPA for workload %v failed, because %s", klog.KObj(object), err.Error())
-		return nil
+		// only "this API version is not served" means that there is no such HPA
+		if meta.IsNoMatchError(err) || errors.IsNotFound(err) {
+			return nil, nil
+		}
+		return nil, err
 	}
 	klog.Infof("Get %d HPA with %s in namespace %s in total", len(unstructuredList.Items), version, object.GetNamespace())
 	for _, item := range unstructuredList.Items {
@@ -80,11 +98,11 @@ func findHPA(cli client.Client, object client.Object, version string) *unstructu
 		if version == object.GetObjectKind().GroupVersionKind().GroupVersion().String() &&
 			kind == object.GetObjectKind().GroupVersionKind().Kind &&
 			removeSuffix(name) == object.GetName() {
-			return &item
+			return &item, nil
 		}
 	}
 	klog.Infof("No HPA found for workload %v", klog.KObj(object))
-	return nil
+	return nil, nil
 }
 
 // scaleTargetRefOf reads name, apiVersion and kind of a scaleTargetRef; apiVersion is optional in the HPA API,
